@@ -1653,6 +1653,198 @@ func genHead(r *gen.Rand) *HeadSpec {
 	return hs
 }
 
+// ---------------------------------------------------------------- OOO head ranges (mode 2, kind "ooo-head")
+
+type OOOSpec struct {
+	Ser     []HeadSer `json:"ser"`     // per series: the out-of-order samples, time-sorted
+	Anchor  int64     `json:"anchor"`  // in-order sample appended first (later than everything else)
+	CapMax  int64     `json:"cap_max"` // OutOfOrderCapMax
+	Batches int       `json:"batches"` // the samples of a series go in that many interleaved batches
+}
+
+// runOOO: a real tsdb.DB with an out-of-order window and a small OutOfOrderCapMax; per series one
+// in-order anchor sample, then the remaining samples in interleaved batches (so the series gets
+// several time-overlapping OOO chunks, which the OOO head hands to the compactor as one chunk
+// meta backed by an Iterable: populateChunksFromIterable re-encodes them); DB.CompactOOOHead;
+// every written block is judged like any other output (the input is the set of OOO samples).
+func (r *runner) runOOO(os_ *OOOSpec, desc map[string]any) error {
+	root, err := os.MkdirTemp(r.f.Out, "c07o_")
+	if err != nil {
+		return err
+	}
+	defer os.RemoveAll(root)
+	opts := tsdb.DefaultOptions()
+	opts.OutOfOrderTimeWindow = int64(1) << 41
+	opts.OutOfOrderCapMax = os_.CapMax
+	opts.MinBlockDuration = int64(1) << 32
+	opts.MaxBlockDuration = int64(1) << 32
+	opts.RetentionDuration = 0
+	db, err := tsdb.Open(root, nil, nil, opts, nil)
+	if err != nil {
+		return err
+	}
+	defer db.Close()
+	db.DisableCompactions()
+	ctx := context.Background()
+	appendOne := func(l int, s S) error {
+		app := db.Appender(ctx)
+		ls := pool[l]
+		var aerr error
+		switch s.K {
+		case 2:
+			_, aerr = app.AppendHistogram(0, ls, s.T, mkH(s.V), nil)
+		case 3:
+			_, aerr = app.AppendHistogram(0, ls, s.T, nil, mkFH(s.V))
+		default:
+			f := float64(s.V)
+			if s.V == staleV {
+				f = math.Float64frombits(value.StaleNaN)
+			}
+			_, aerr = app.Append(0, ls, s.T, f)
+		}
+		if aerr != nil {
+			app.Rollback()
+			return fmt.Errorf("ooo append t=%d k=%d v=%d: %w", s.T, s.K, s.V, aerr)
+		}
+		return app.Commit()
+	}
+	for _, se := range os_.Ser {
+		if err := appendOne(se.L, S{os_.Anchor, 1, 1}); err != nil {
+			return err
+		}
+	}
+	for b := 0; b < os_.Batches; b++ {
+		for _, se := range os_.Ser {
+			for i, s := range se.Smp {
+				if i%os_.Batches == b {
+					if err := appendOne(se.L, s); err != nil {
+						return err
+					}
+				}
+			}
+		}
+	}
+	if err := db.CompactOOOHead(ctx); err != nil {
+		desc["err"] = err.Error()
+		// reported as a failed compaction over the whole range
+		in := oooInput(os_, math.MinInt64/4, math.MaxInt64/4)
+		r.meta.Hit("ooo-head")
+		r.emit(nil, desc, []Block{in}, 2, true, in.Min, in.Max, true, Block{}, Stats{}, true)
+		return nil
+	}
+	blocks := db.Blocks()
+	if len(blocks) == 0 {
+		return errors.New("CompactOOOHead wrote no block")
+	}
+	for bi, b := range blocks {
+		out, st, qeq, err := readBlock(b)
+		if err != nil {
+			return err
+		}
+		in := oooInput(os_, b.Meta().MinTime, b.Meta().MaxTime)
+		if !inRange(in) || !inRange(out) {
+			return errors.New("timestamp outside the literal range")
+		}
+		d := map[string]any{}
+		for k, v := range desc {
+			d[k] = v
+		}
+		d["block"] = bi
+		if !b.Meta().Compaction.FromOutOfOrder() {
+			return errors.New("block written by CompactOOOHead lacks the out-of-order hint")
+		}
+		r.meta.Hit("ooo-head")
+		r.emit(nil, d, []Block{in}, 2, true, in.Min, in.Max, false, out, st, qeq)
+	}
+	return nil
+}
+
+// oooInput: the OOO samples as one model block (one chunk per run of equal value type).
+func oooInput(os_ *OOOSpec, mint, maxt int64) Block {
+	var in Block
+	in.Min, in.Max = mint, maxt
+	ss := append([]HeadSer(nil), os_.Ser...)
+	sort.Slice(ss, func(i, j int) bool { return ss[i].L < ss[j].L })
+	for _, se := range ss {
+		ms := Series{L: se.L}
+		for i := 0; i < len(se.Smp); {
+			j := i
+			for j < len(se.Smp) && se.Smp[j].K == se.Smp[i].K {
+				j++
+			}
+			ms.Chks = append(ms.Chks, Chunk{se.Smp[i].T, se.Smp[j-1].T, append([]S(nil), se.Smp[i:j]...)})
+			i = j
+		}
+		in.Ser = append(in.Ser, ms)
+	}
+	return in
+}
+
+func genOOO(r *gen.Rand) *OOOSpec {
+	o := &OOOSpec{CapMax: r.PickI64(2, 3, 4, 8), Batches: 2 + r.Intn(2)}
+	nl := 1 + r.Intn(3)
+	var ls []int
+	for len(ls) < nl {
+		x := r.Intn(len(pool))
+		dupl := false
+		for _, y := range ls {
+			dupl = dupl || x == y
+		}
+		if !dupl {
+			ls = append(ls, x)
+		}
+	}
+	base := r.PickI64(0, 1000, 1700000000000)
+	grid := r.PickI64(1, 5, 10)
+	width := r.PickI64(40, 100) * grid
+	kinds := [][]int{{3}, {3}, {2}, {2, 3}, {1, 3}, {1}}[r.Intn(6)]
+	for _, l := range ls {
+		n := 6 + r.Intn(30)
+		var sm []S
+		if r.Chance(1, 2) {
+			// layout growth without counter reset: level never drops, layout 0 -> 1 once or twice
+			sm = genSeries(r, base, base+width, grid, n, kinds, false, 2)
+			c, lay := int64(r.Intn(50)), int64(0)
+			for i := range sm {
+				c += int64(r.Intn(3))
+				if i > 0 && r.Chance(1, 6) {
+					lay = 1 - lay
+				}
+				sm[i].V = 8000 + 1000*lay + c
+			}
+		} else {
+			sm = genRich(r, base, base+width, grid, n, kinds, r.Chance(1, 4))
+		}
+		if len(sm) > 0 {
+			o.Ser = append(o.Ser, HeadSer{L: l, Smp: sm})
+		}
+	}
+	o.Anchor = base + width + 10*grid
+	return o
+}
+
+// fixed OOO reproducers: two interleaved batches, OutOfOrderCapMax 4, bucket layout growing
+// (layout 0 -> 1) while the counter level keeps rising: the re-encode of the merged OOO chunks
+// recodes the open chunk
+func oooCorpus() []*OOOSpec {
+	mk := func(k int, base int64) []S {
+		var l []S
+		for i := int64(0); i < 16; i++ {
+			lay := int64(0)
+			if i >= 7 {
+				lay = 1
+			}
+			l = append(l, S{10 + 10*i, k, base + 1000*lay + 10 + i})
+		}
+		return l
+	}
+	return []*OOOSpec{
+		{Ser: []HeadSer{{L: 2, Smp: mk(3, 8000)}}, Anchor: 1000, CapMax: 4, Batches: 2},
+		{Ser: []HeadSer{{L: 2, Smp: mk(2, 8000)}, {L: 4, Smp: mk(3, 0)}}, Anchor: 1000, CapMax: 4, Batches: 2},
+		{Ser: []HeadSer{{L: 1, Smp: mk(3, 8000)}, {L: 3, Smp: mk(1, 0)}}, Anchor: 1000, CapMax: 3, Batches: 3},
+	}
+}
+
 // ---------------------------------------------------------------- main
 
 func main() {
@@ -1721,6 +1913,24 @@ func main() {
 		d := map[string]any{"gen": fmt.Sprintf("head/seed=%d/i=%d", f.Seed, i)}
 		if err := r.runHead(hs, d); err != nil {
 			r.meta.GoViol = append(r.meta.GoViol, gallina.GoViolation{ID: fmt.Sprintf("head-%d", i), Shape: "harness-error", What: err.Error()})
+		}
+	}
+	for i, oc := range oooCorpus() {
+		d := map[string]any{"gen": "ooo-corpus", "index": i, "kind": "ooo-head"}
+		if err := r.runOOO(oc, d); err != nil {
+			r.meta.GoViol = append(r.meta.GoViol, gallina.GoViolation{ID: fmt.Sprintf("ooo-corpus-%d", i), Shape: "harness-error", What: err.Error()})
+		}
+	}
+	no := f.Count(8, 200)
+	for i := 0; i < no && r.bytes < budget; i++ {
+		rg := gen.Fork(f.Seed, 2_000_000+i)
+		oc := genOOO(rg)
+		if len(oc.Ser) == 0 {
+			continue
+		}
+		d := map[string]any{"gen": fmt.Sprintf("ooo/seed=%d/i=%d", f.Seed, i), "kind": "ooo-head"}
+		if err := r.runOOO(oc, d); err != nil {
+			r.meta.GoViol = append(r.meta.GoViol, gallina.GoViolation{ID: fmt.Sprintf("ooo-%d", i), Shape: "harness-error", What: err.Error()})
 		}
 	}
 	r.cf.Flush()
